@@ -206,9 +206,11 @@ def run_known_corpus(ctx):
     with the correct result the defect is gone and nothing is reported; if it
     fails the way the finding says, that is the KNOWN-FINDING; any other
     failure is a violation."""
-    root = os.path.join(lib.VERIF, "corpus", "known")
     n = 0
-    for name in sorted(os.listdir(root)):
+    entries = [("known", x) for x in sorted(os.listdir(os.path.join(lib.VERIF, "corpus", "known")))] + \
+              [("regress", x) for x in sorted(os.listdir(os.path.join(lib.VERIF, "corpus", "regress")))]
+    for kind, name in entries:
+        root = os.path.join(lib.VERIF, "corpus", kind)
         meta = json.load(open(os.path.join(root, name, "meta.json")))
         if ctx.prop not in meta["properties"]:
             continue
@@ -232,8 +234,13 @@ def run_known_corpus(ctx):
         except Exception:
             pass
         if rc == 0 and outs == meta["expect_outs"]:
-            continue        # repaired
-        if re.search(meta["expect_regex"], out):
+            continue        # repaired / still correct
+        if kind == "regress":
+            # a minimal program for a defect that was repaired: it must stay correct
+            ctx.fail("regression:" + name, "%s: exit %d, outs %s, expected %s" % (meta["what"], rc, outs, meta["expect_outs"]),
+                     {"program": "corpus/regress/" + name, "exit": rc, "log_tail": out[-1500:], "outs": outs})
+            continue
+        if re.search(meta["expect_regex"], out) or (rc == 0 and outs and outs == meta.get("expect_wrong_outs")):
             ctx.fail("corpus:" + name, meta["what"], {"program": name, "exit": rc, "log_tail": out[-800:]})
         else:
             ctx.fail("corpus_unexpected:" + name, "known-finding program %s fails differently (exit %d)" % (name, rc),
